@@ -83,8 +83,12 @@ type SpecFn struct {
 	Text   string
 	Mode   string // "" both, or restricts definition to one mode (opaque in the other)
 	Rec    bool
-	Line   int
-	Pkg    *types.Package
+	// Content: an uninterpreted function of the CONTENTS of its slice parameters (element sequence), not of
+	// the slice header or the rest of memory: encoded over (array row, offset, length) with an extensionality
+	// axiom, so that equal byte sequences at different places or in different memory states get equal values.
+	Content bool
+	Line    int
+	Pkg     *types.Package
 }
 
 type Lemma struct {
@@ -520,11 +524,15 @@ func parseSpecFn(s string, line int) (*SpecFn, error) {
 	} else if strings.HasPrefix(s, "int ") {
 		mode, s = "int", s[4:]
 	}
+	content := false
+	if strings.HasPrefix(s, "content ") {
+		content, s = true, s[8:]
+	}
 	m := specRe.FindStringSubmatch(s)
 	if m == nil {
 		return nil, fmt.Errorf("bad spec %q", s)
 	}
-	sp := &SpecFn{Name: m[2], Result: m[4], Text: s, Line: line, Rec: m[1] != "", Mode: mode}
+	sp := &SpecFn{Name: m[2], Result: m[4], Text: s, Line: line, Rec: m[1] != "", Mode: mode, Content: content}
 	if strings.TrimSpace(m[3]) != "" {
 		// Go-like grouping: "a, b int, c []byte"
 		parts := strings.Split(m[3], ",")
@@ -547,6 +555,9 @@ func parseSpecFn(s string, line int) (*SpecFn, error) {
 		if len(pend) > 0 {
 			return nil, fmt.Errorf("spec param without type in %q", m[3])
 		}
+	}
+	if content && m[5] != "" {
+		return nil, fmt.Errorf("spec content %s: a content function has no body", sp.Name)
 	}
 	if m[5] != "" {
 		e, err := ParseExpr(m[5])
